@@ -360,9 +360,22 @@ pub fn run(a: &Args) {
                                 v["sha"] = json!(sha256(&data).to_hex().as_str()[..16]);
                                 // ranged reads incl. across chunk borders and past the end
                                 let of = repo.open_file(&node)?;
+                                // every chunk start (from the index) +-1 with short and long lengths, then random ranges
+                                let mut ranges: Vec<(usize, usize)> = Vec::new();
+                                let mut start = 0usize;
+                                for id in node.content.iter().flatten().take(40) {
+                                    let l = repo.get_index_entry(id)?.data_length() as usize;
+                                    for off in [start.saturating_sub(1), start, start + 1] {
+                                        ranges.push((off, 1));
+                                        ranges.push((off, l + 1));
+                                    }
+                                    start += l;
+                                }
+                                ranges.push((start, 1));
                                 for _ in 0..6 {
-                                    let off = rr.range(0, data.len() as i64 + 3) as usize;
-                                    let len = rr.range(0, data.len() as i64 + 10) as usize;
+                                    ranges.push((rr.range(0, data.len() as i64 + 3) as usize, rr.range(0, data.len() as i64 + 10) as usize));
+                                }
+                                for (off, len) in ranges {
                                     let got = repo.read_file_at(&of, off, len)?;
                                     let want: &[u8] = if off >= data.len() { &[] } else { &data[off..(off + len).min(data.len())] };
                                     if got.as_ref() != want {
